@@ -1,5 +1,6 @@
 import Driver.ELDriver
 import Driver.SimDriver
+import Driver.HeapDriver
 import Driver.InteropDriver
 import Driver.AssertionDriver
 import Driver.NumDriver
@@ -19,6 +20,7 @@ def handle (line : String) : String :=
       match kind with
       | "el" => runEL j
       | "sim" => SimDriver.run j
+      | "heapq" => runHeap j
       | "interop" => InteropDriver.run j
       | "assertion" => AssertionDriver.run j
       | "camera" => NumDriver.run j
